@@ -273,6 +273,9 @@ psParseUnknownPubKeyMem(psPool_t *pool,
 # if defined USE_RSA || defined USE_ECC
     unsigned char hashBuf[SHA1_HASH_SIZE];
 # endif
+# ifdef USE_RSA
+    const unsigned char *rsaCursor;
+# endif
 
     rc = psPemTryDecode(pool,
             keyBuf,
@@ -290,8 +293,11 @@ psParseUnknownPubKeyMem(psPool_t *pool,
     }
 
 # ifdef USE_RSA
+    /* psRsaParseAsnPubKey advances the pointer it is given; 'data' must keep
+       pointing at the start of the (possibly allocated) buffer. */
+    rsaCursor = data;
     rc = psRsaParseAsnPubKey(pool,
-                             (const unsigned char **)&data, data_len,
+                             &rsaCursor, data_len,
                              &pubkey->key.rsa,
                              hashBuf);
     if (rc == PS_SUCCESS)
